@@ -3,11 +3,27 @@
    Layers: F = documented format (Format.v), S = abstract spec (Spec/SpecStep), I = model of the Rust (World.step'). *)
 From Coq Require Import List NArith Bool Arith Sorted.
 From Coq Require Import Strings.Byte.
-Require Import BS.Bytes BS.Common BS.Api BS.Layout BS.Format BS.FormatFacts.
+Require Import BS.Bytes BS.Common BS.Api BS.Layout BS.Format BS.FormatFacts BS.Spec BS.SpecStep.
+Require Import BS.FS BS.FSFacts BS.Meta BS.MetaFacts BS.Header BS.Reader BS.ReaderFacts BS.Index BS.Data BS.DataFacts BS.Seek BS.Series BS.SeriesFacts.
 Import ListNotations.
 
-(* the sections of an encoding are exactly the sections the writer opened, at their offsets *)
+(* (F) the sections of an encoding are exactly the sections the writer opened, at their offsets *)
 Theorem C06_sections_of_encoding : forall (p:nat) (l:list line), wf_series p l ->
   sections p (encode p l) = secs_from p None 0 l.
 Proof. exact sections_encode. Qed.
 Print Assumptions C06_sections_of_encoding.
+
+(* (I) appends keep index file and in-memory entries equal to the sections of the data region
+   (RepD fields rd_ix, rd_entries are preserved by push_data) *)
+Theorem C06_update_keeps_index : forall fs d p hdr ihdr region full last ts pay,
+  RepD fs d p hdr ihdr region full last -> line_ok p full (ts, pay) ->
+  let tb := tail_bytes p full (ts, pay) in
+  exists fs' d',
+    push_data d ts pay fs = (fs', Ok d')
+    /\ RepD fs' d' p hdr ihdr (region ++ fst tb) (snd tb) (Some ts)
+    /\ (forall g, g <> of_name (d_file d) -> g <> of_name (ix_file (d_index d)) -> fs_get fs' g = fs_get fs g)
+    /\ of_name (d_file d') = of_name (d_file d) /\ of_name (ix_file (d_index d')) = of_name (ix_file (d_index d)).
+Proof. exact push_data_ok. Qed.
+Print Assumptions C06_update_keeps_index.
+(* partial: rebuilt index = sections (extract_entries, the chunk-carry argument of C01 applied to
+   Index.extract_loop) and the validate-or-rebuild decision on open are not proved yet. *)
